@@ -356,6 +356,17 @@ def cases(run):
             yield from pos_lines(src, coll, ranges1)
     run.exhaustive = True
 
+    # (1c) isoforms: a gene whose transcript flagged PRIMARY is non-coding while another isoform carries a CDS —
+    #      the gene is coding (`any(tx.is_coding)`), whatever its primary transcript is
+    spans = [(a, b) for a in range(0, L1 + 1) for b in range(a + 1, L1 + 1)]
+    iso = [("g", True, "a", [(a, b, "+p"), (c, d, "-c")]) for a, b in spans for c, d in spans]
+    rng.shuffle(iso)
+    for k in iso[: 10 if quick else len(iso)]:
+        for src in ("N - -", f"N 0 {L1 + 1}", f"W {G[:L1]} - -"):
+            run.count("isoforms:(coll,parent)")
+            yield from pos_lines(src, enc_coll([k]), all_ranges(0, L1 + 1), ["1 0 0", "1 1 0", "1 0 1", "0 1 0"])
+        yield from id_lines(rng, f"N 0 {L1 + 1}", [k], cap=8)
+
     # (1b) two-child collections on the tiny genome: all pairs (sampled in quick), all ranges, strict/relaxed
     pairs = [(a, b) for a in kids1 for b in kids1 if variants_ok([a, b])]
     rng.shuffle(pairs)
